@@ -101,7 +101,9 @@ class World:
             # or AnsiString"); what that parse yields is C02's business, the relations use it as given
             o = observe(AnsiString(t))
             self.count('probe:plain_operand_with_escape')
-            return Obs(T, o.text, o.cells, o.render)
+            out = Obs(T, o.text, o.cells, o.render)
+            out.literal = Obs(T, t, tuple(() for _ in t), t)     # the other admissible reading (see C05)
+            return out
         return observe(t)
 
 
@@ -206,10 +208,10 @@ def execute(world: World, op, step_no, oracle=None, budget=clock.DEFAULT_BUDGET,
     try:
         if use_clock:
             # the budget grows with the square of the longest text involved: replace('', x) and format_matching with
-            # a match at every character are quadratic by construction (about 60 events per character pair), so
+            # a match at every character are quadratic by construction (about 60 events per character pair; the budget allows 100 times that), so
             # a flat budget would call an operation on a 300-character value a hang although it ends
             n_max = max([len(o.text) for o in [ctx.pre] + [ob for _, ob in ctx.operands.values()] if o is not None] or [0])
-            budget = min(max(budget, 600 * (n_max + 1) ** 2), clock.MAX_BUDGET)
+            budget = min(max(budget, 6000 * (n_max + 1) ** 2), clock.MAX_BUDGET)
             ctx.result, ctx.events = clock.run(call, budget)
         else:
             ctx.result = call()
